@@ -724,6 +724,7 @@ theorem labelFinder_spec (nLabel nNode : Nat) (labelSet : Option (List (List Nat
   · split at e
     · split at e
       · cases e
+        exact ⟨rfl, fun p hp => Or.inl (by simpa using hp)⟩
       · split at e
         · cases e
         · cases e
@@ -961,6 +962,86 @@ theorem identity_iso (n : Nat) (A : Adj) : isIsoMap n A A (List.range n) = true 
   by_cases e : u = v
   · left; exact e
   · right; exact e
+
+
+/-! ### the metric-guided LC walks of utils/preprocessing.py stay in the orbit -/
+
+theorem mem_dropLast {α : Type} (l : List α) (a : α) (h : a ∈ l.dropLast) : a ∈ l :=
+  (List.dropLast_sublist l).subset h
+
+theorem mem_pyInsert {α : Type} (l : List α) (k : Nat) (v a : α) (h : a ∈ pyInsert l k v) : a = v ∨ a ∈ l := by
+  unfold pyInsert at h
+  rcases List.mem_append.mp h with h | h
+  · right; exact List.mem_of_mem_take h
+  · rcases List.mem_cons.mp h with h | h
+    · left; exact h
+    · right; exact List.mem_of_mem_drop h
+
+theorem selectGraphs_mem (cands : List (Float × BMat)) (g : BMat) (limit : Nat) (val : Float) (c : Float × BMat)
+    (h : c ∈ selectGraphs cands g limit val) : c ∈ cands ∨ c.2 = g := by
+  unfold selectGraphs at h
+  split at h
+  · rcases List.mem_append.mp h with h | h
+    · left; exact h
+    · right; simp at h; rw [h]
+  · split at h
+    · rcases mem_pyInsert _ _ _ _ (mem_dropLast _ _ h) with h | h
+      · right; rw [h]
+      · left; exact h
+    · left; exact h
+
+theorem lcWalkTrial_inOrbit (n : Nat) (A : Adj) (hA : Simple n A) (nodeScore : BMat → Nat → Nat) (metric : BMat → Float)
+    (limit : Nat) (cands : List (Float × BMat)) (hc : ∀ c ∈ cands, InOrbit n A c.2) :
+    ∀ c ∈ lcWalkTrial nodeScore metric limit cands, InOrbit n A c.2 := by
+  unfold lcWalkTrial
+  simp only []
+  have htmp : ∀ g ∈ (cands.flatMap fun c => (maxNodes c.2.r (nodeScore c.2)).map fun v => lcStep c.2 v), InOrbit n A g := by
+    intro g hg
+    simp only [List.mem_flatMap, List.mem_map] at hg
+    obtain ⟨c, hcm, v, hv, e⟩ := hg
+    rw [← e]
+    have hin := hc c hcm
+    apply lcStep_inOrbit n A c.2 v hA hin
+    have : v < c.2.r := by
+      unfold maxNodes at hv
+      exact ((mem_filterTo _ _ v).mp hv).1
+    rw [← hin.1]; exact this
+  generalize (cands.flatMap fun c => (maxNodes c.2.r (nodeScore c.2)).map fun v => lcStep c.2 v) = tmp at htmp
+  induction tmp generalizing cands with
+  | nil => simpa using hc
+  | cons g rest ih =>
+    simp only [List.foldl_cons]
+    apply ih
+    · intro c hcm
+      rcases selectGraphs_mem cands g limit (metric g) c hcm with h | h
+      · exact hc c h
+      · rw [h]; exact htmp g (by simp)
+    · intro g' hg'; exact htmp g' (List.mem_cons_of_mem _ hg')
+
+/-- **`get_lc_graph_by_max_edge` / `get_lc_graph_by_max_neighbor_edge`**: every candidate graph they return is obtained
+    from the input by local complementations — for every metric, every limit and every number of trials -/
+theorem lcWalk_inOrbit (nodeScore : BMat → Nat → Nat) (metric : BMat → Float) (g : BMat) (limit trials : Nat)
+    (out : List (Float × BMat)) (hsq : g.c = g.r) (hA : Simple g.r g.f) (e : lcWalk nodeScore metric g limit trials = .ok out) :
+    ∀ c ∈ out, InOrbit g.r g.f c.2 := by
+  unfold lcWalk at e
+  split at e
+  · cases e
+  · injection e with e
+    rw [← e]
+    have key : ∀ (l : List Nat) (cands : List (Float × BMat)), (∀ c ∈ cands, InOrbit g.r g.f c.2) →
+        ∀ c ∈ l.foldl (fun acc _ => lcWalkTrial nodeScore metric limit acc) cands, InOrbit g.r g.f c.2 := by
+      intro l
+      induction l with
+      | nil => intro cands h; simpa using h
+      | cons _ t ih =>
+        intro cands h
+        simp only [List.foldl_cons]
+        exact ih _ (lcWalkTrial_inOrbit g.r g.f hA nodeScore metric limit cands h)
+    apply key
+    intro c hc
+    simp at hc
+    rw [hc]
+    exact inOrbit_self g.r g rfl hsq
 
 
 end Graphiq
